@@ -5,6 +5,7 @@ mod icy;
 mod layers;
 mod load;
 mod opt;
+mod rip;
 mod sauce;
 mod sixel;
 mod small;
@@ -41,6 +42,7 @@ fn main() {
         "c18" => small::c18(&a),
         "c19" => small::c19(&a),
         "c20" => gfx::c20(&a),
+        "rip" => rip::rip(&a),
         other => {
             eprintln!("unknown driver {other}");
             std::process::exit(2);
